@@ -354,7 +354,8 @@ def obligations(tier):
          split=('t', 'ne', 'n', 'o0', 'second'), timeout=900, funcs=F,
          per_path_timeout=60.0,
          bounds='jit, remat; base graph + <=1 extra edge; second argument = the '
-                'child (aliases) or a separate module; <=2 ops of 8 kinds; %s '
+                'child (aliases) or a separate module; <=2 ops of 10 kinds (incl. the same '
+                'transform nested in itself, a record-like pytree attribute); %s '
                 'calls' % ('1' if quick else '<=2')),
       Ob('control_flow_like_python', control_flow_like_python,
          dict(t=I(0, 3), second=I(0, 1), v0=v, v1=v, v2=v, x=v, o0=op, o1=op,
